@@ -88,7 +88,7 @@ func (f *Reduce) Call(s *slip.Scope, args slip.List, depth int) (result slip.Obj
 		}
 	}
 	if v, has := slip.GetArgsKeyValue(args, slip.Symbol(":start")); has {
-		if num, ok := v.(slip.Fixnum); ok && 0 <= num && int(num) < len(list) {
+		if num, ok := v.(slip.Fixnum); ok && 0 <= num && int(num) <= len(list) {
 			list = list[int(num):]
 		} else {
 			slip.TypePanic(s, depth, ":start", v, fmt.Sprintf("fixnum between 0 and %d", len(list)))
